@@ -103,6 +103,8 @@ def build(env, p):
     w.nfunc = 0
     w.nfail = 0
     w.comm_failed_at = []
+    if p.get('dopoll_fail'):
+        w.dopoll_kind = ['secop', 'silent', 'comm', 'other'][env.choice('dopollkind', 4)]
     if p.get('persistent'):
         w.persistent_name = ['value', 'status', 'p1'][env.choice('failing', 3)]
         w.persistent_kind = ['secop', 'silent', 'other', 'comm'][env.choice('failkind', 4)]
@@ -157,6 +159,19 @@ def build(env, p):
             w.log.append(('doPoll', self.name, w.clock.now))
             if len([e for e in w.log if e[0] == 'doPoll']) > p.get('maxpolls', 8):
                 w.modules.clear()   # horizon for busy polling (interval 0 never waits)
+            if p.get('dopoll_fail') and self.name == 'm0':
+                # an error raised by the poll function itself, not inside a read_<parameter> method
+                n = len([e for e in w.log if e[0] == 'doPoll' and e[1] == 'm0'])
+                if n % 2 == 1:
+                    kind = w.dopoll_kind
+                    w.log.append(('func', self.name, 'doPoll-direct', w.clock.now, w.clock.now, kind))
+                    if kind == 'secop':
+                        raise HardwareError('direct')
+                    if kind == 'silent':
+                        raise SilentHW('direct')
+                    if kind == 'comm':
+                        raise CommunicationFailedError('direct')
+                    raise ValueError('direct')
             super().doPoll()
 
     cfg = {}
@@ -197,6 +212,12 @@ def cases(tier):
                                                                        'nsym': 0, 'nfailsym': 0, 'persistent': True, 'maxpolls': 60}})
     out.append({'fn': 'run_poll', 'id': 'change-fast2', 'params': {'interval': 5, 'slow': 15, 'nmod': 1, 'nsym': 1, 'nfailsym': 0,
                                                                  'K': 5, 'change': 'fast2'}})
+    out.append({'fn': 'run_poll', 'id': 'dopoll-raises-directly', 'params': {'interval': 1, 'slow': 2, 'nmod': 2, 'K': 8, 'change': None,
+                                                                           'nsym': 0, 'nfailsym': 0, 'dopoll_fail': True, 'maxpolls': 40,
+                                                                           'concrete_t0': True}})
+    out.append({'fn': 'run_poll', 'id': 'change-interval-while-fast', 'params': {'interval': 5, 'slow': 15, 'nmod': 1, 'nsym': 0, 'nfailsym': 0,
+                                                                               'K': 7, 'change': 'interval-while-fast', 'maxpolls': 40,
+                                                                               'concrete_t0': True}})
     for change in ('interval', 'fast', 'zero'):
         out.append({'fn': 'run_poll', 'id': f'change-{change}', 'params': {'interval': 5, 'slow': 15, 'nmod': 1, 'nsym': 2 if thorough else 1,
                                                                           'nfailsym': 2 if thorough else 1,
@@ -212,6 +233,16 @@ def run_poll(env, p):
         change_at = 1 + env.choice('change_at', max(1, p['K'] - 1))
 
         def on_wakeup(n):
+            if p['change'] == 'interval-while-fast':
+                # fast polling on, the poll interval is changed meanwhile, fast polling off: the new interval counts
+                if n == 1:
+                    w.mods[0].setFastPoll(True, 0.25)
+                elif n == 2:
+                    w.mods[0].pollinterval = 1.0
+                elif n == 3:
+                    w.log.append(('change', w.clock.now))
+                    w.mods[0].setFastPoll(False)
+                return
             if p['change'] == 'fast2':
                 if n == 1:
                     w.mods[0].setFastPoll(True, 2.0)
@@ -277,7 +308,7 @@ def run_poll(env, p):
     # an interval change takes effect from the next wake-up
     if p['change'] and any(e[0] == 'change' for e in w.log):
         tchange = [e[1] for e in w.log if e[0] == 'change'][0]
-        new = {'interval': 1.0, 'fast': 0.25, 'zero': 0, 'fast2': 0.25}[p['change']]
+        new = {'interval': 1.0, 'fast': 0.25, 'zero': 0, 'fast2': 0.25, 'interval-while-fast': 1.0}[p['change']]
         later = [e[2] for e in polls if e[2] > tchange]
         if later:
             # first poll after the change comes no later than the new interval (+ work) after the change
